@@ -667,3 +667,115 @@ func runE4(c *core.Ctx) {
 		c.Undecided("internal/decoder/api.(StreamDecoder)/fresh-offset", token.NoPos, "no Reader.Read(buf[l:cap]) site found")
 	}
 }
+
+// E6: the io.Reader contract - "callers should always process the n > 0 bytes returned before
+// considering the error err". In the stream decoder every path from a Read call to a return
+// must first account for the returned count (extend the buffer by n); returning on err != nil
+// before that drops the last bytes of a stream whose reader delivers data together with EOF.
+
+func init() {
+	register(&core.Rule{ID: "E6", Min: 2,
+		Doc: "Bytes returned together with an error are kept: in internal/decoder/api, for every call `n, err := r.Read(...)` on an io.Reader, every go/cfg path from the call to a return statement passes a statement that reads n (the buffer is extended by the count) - no return, in particular none guarded by err != nil, comes first.",
+		Run: runE6})
+}
+
+func runE6(c *core.Ctx) {
+	p := c.Prog
+	pk := p.Pkg("internal/decoder/api")
+	if pk == nil {
+		c.Undecided("internal/decoder/api", token.NoPos, "package not loaded")
+		return
+	}
+	n := 0
+	for _, fd := range core.FuncDecls(pk) {
+		if fd.Body == nil {
+			continue
+		}
+		fn := core.FuncName(pk, fd)
+		// Read calls with their count variable
+		type site struct {
+			call *ast.CallExpr
+			cnt  types.Object
+			stmt ast.Stmt
+		}
+		var sites []site
+		ast.Inspect(fd.Body, func(nd ast.Node) bool {
+			as, ok := nd.(*ast.AssignStmt)
+			if !ok || len(as.Lhs) != 2 || len(as.Rhs) != 1 {
+				return true
+			}
+			call, ok := as.Rhs[0].(*ast.CallExpr)
+			if !ok {
+				return true
+			}
+			se, ok := call.Fun.(*ast.SelectorExpr)
+			if !ok || se.Sel.Name != "Read" || len(call.Args) != 1 {
+				return true
+			}
+			if id, ok := as.Lhs[0].(*ast.Ident); ok {
+				if o := p.ObjectOf(id); o != nil {
+					sites = append(sites, site{call, o, as})
+				}
+			}
+			return true
+		})
+		if len(sites) == 0 {
+			continue
+		}
+		g := funcCFG(p, fd.Body)
+		for k, s := range sites {
+			n++
+			cn := fn + "/read-count#" + itoa(k+1)
+			c.Analysed(fn)
+			b, i := locate(g, s.stmt.Pos())
+			if b == nil {
+				c.Undecided(cn, s.call.Pos(), "Read call not located in the CFG")
+				continue
+			}
+			// DFS: is there a path from the statement after the call to a return (or function end)
+			// that never reads the count?
+			type pos struct {
+				b *cfg.Block
+				i int
+			}
+			seen := map[*cfg.Block]bool{}
+			var badPos token.Pos
+			var walk func(b *cfg.Block, i int) bool // true = a count-free path to an exit exists
+			walk = func(b *cfg.Block, i int) bool {
+				for j := i; j < len(b.Nodes); j++ {
+					nd := b.Nodes[j]
+					if nodeReads(p, nd, s.cnt) {
+						return false
+					}
+					if r, ok := nd.(*ast.ReturnStmt); ok {
+						badPos = r.Pos()
+						return true
+					}
+				}
+				if len(b.Succs) == 0 {
+					badPos = fd.End()
+					return true
+				}
+				for _, sx := range b.Succs {
+					if seen[sx] {
+						continue
+					}
+					seen[sx] = true
+					if walk(sx, 0) {
+						return true
+					}
+				}
+				return false
+			}
+			_ = pos{}
+			if walk(b, i+1) {
+				c.Bad(cn, s.call.Pos(), "the count returned by %s is not used on a path to the return at %s: when the reader delivers its last bytes together with an error (io.EOF), those bytes never enter the buffer and the final value(s) of the stream are lost", exprStr(s.call.Fun), p.Pos(badPos))
+			} else {
+				c.OK(cn, s.call.Pos(), "every path from the Read to a return first extends the buffer by the count")
+			}
+		}
+	}
+	if n < 2 {
+		c.Undecided("internal/decoder/api/reads", token.NoPos, "only %d Read calls found", n)
+	}
+}
